@@ -79,37 +79,19 @@ func classifySeq(s Seq) *modeSeq {
 	return nil
 }
 
-func runC04(c *Ctx) {
-	c.Clauses = []string{
-		"C04.a every mode-setting sequence emitted outside the exit path has a restoring sequence on the exit path whose guards are implied by the setter's guards",
-		"C04.b Close reaches Suspend then console.Close unless already closed, marks closed first; Suspend runs parser shutdown, disableModes, exitAltScreen, cursor restore, flush, signal stop, console reset in that order; signal arm and panic handler call Close",
-		"C04.c Resume emits the same mode-establishing calls in the same order as New after the query phase",
-		"C04.d capability flags are not written after the modes were enabled (pairing by equal guards is stable)",
-	}
-	c.NotDec = []string{"that restored values equal the terminal's values from before start-up for modes Vaxis cannot read back"}
-	c.expect("C04.a", 18)
-	c.expect("C04.b", 14)
-	c.expect("C04.c", 2)
-	c.expect("C04.d", 3)
+// c04Site: one mode-setting or mode-restoring sequence of an emission.
+type c04Site struct {
+	em  *Emission
+	seq Seq
+	ms  *modeSeq
+}
 
-	c04Normalise(c)
-	pk := c.P.Pkg("vaxis")
-	info := pk.TypesInfo
-	suspend := c.P.Func("vaxis.(*Vaxis).Suspend")
-	if suspend == nil {
-		c.undecided("C04.b", "vaxis.(*Vaxis).Suspend", 0, "Suspend not found")
-		return
-	}
+// c04ModeSites enumerates the resolved emissions of package vaxis: the restoring sequences on the exit path
+// (functions reachable from Suspend, the terminal writer excluded) and the setting sequences everywhere else.
+func c04ModeSites(c *Ctx, suspend *FuncInfo) (setters, restorers []c04Site) {
 	restoreFns := staticReach(c.P, suspend)
 	ems := ExtractEmissions(c.P, c.P.FuncsIn("vaxis"), vaxisTerminalSink)
 	isWriterFn := func(n string) bool { return strings.HasPrefix(n, "vaxis.(*writer).") }
-
-	type site struct {
-		em  *Emission
-		seq Seq
-		ms  *modeSeq
-	}
-	var setters, restorers []site
 	for _, e := range ems {
 		if !e.Resolved {
 			continue
@@ -131,7 +113,7 @@ func runC04(c *Ctx) {
 					continue
 				}
 				seenClass[k] = true
-				st := site{e, s, ms}
+				st := c04Site{e, s, ms}
 				if inRestore {
 					if !ms.set || ms.class == "cursor-style" || ms.class == "pointer-shape" || ms.class == "app-id" {
 						restorers = append(restorers, st)
@@ -142,9 +124,36 @@ func runC04(c *Ctx) {
 			}
 		}
 	}
+	return
+}
+
+func runC04(c *Ctx) {
+	c.Clauses = []string{
+		"C04.a every mode-setting sequence emitted outside the exit path has a restoring sequence on the exit path whose guards are implied by the setter's guards",
+		"C04.b Close reaches Suspend then console.Close unless already closed, marks closed first; Suspend runs parser shutdown, disableModes, exitAltScreen, cursor restore, flush, signal stop, console reset in that order; signal arm and panic handler call Close",
+		"C04.c Resume emits the same mode-establishing calls in the same order as New after the query phase",
+		"C04.d capability flags are not written after the modes were enabled (pairing by equal guards is stable)",
+	}
+	c.NotDec = []string{"that restored values equal the terminal's values from before start-up for modes Vaxis cannot read back"}
+	c.expect("C04.a", 18)
+	c.expect("C04.b", 14)
+	c.expect("C04.c", 2)
+	c.expect("C04.d", 3)
+
+	c04Normalise(c)
+	pk := c.P.Pkg("vaxis")
+	info := pk.TypesInfo
+	suspend := c.P.Func("vaxis.(*Vaxis).Suspend")
+	if suspend == nil {
+		c.undecided("C04.b", "vaxis.(*Vaxis).Suspend", 0, "Suspend not found")
+		return
+	}
+	isWriterFn := func(n string) bool { return strings.HasPrefix(n, "vaxis.(*writer).") }
+	setters, restorers := c04ModeSites(c, suspend)
 	// capability-implied guards: a restorer may additionally be guarded by the capability flag
 	// that the terminal's reply to the feature's own query establishes (a terminal that honoured
-	// the setter also answered the query).
+	// the setter also answered the query). C04.l (c04l.go) decides what that argument rests on: after the
+	// unguarded set nothing clears the flag, and the reply is recorded whatever the configuration.
 	capImplied := map[string]string{
 		"DECSET 2048": "+Vaxis.caps.inBandResize", // blind enable in the probe; the report it triggers sets the flag
 		"app-id":      "+Vaxis.caps.osc176",       // SetAppID is honoured only by terminals that answered OSC 176 ;?
